@@ -9,12 +9,22 @@ import (
 	vestingtypes "github.com/cosmos/cosmos-sdk/x/auth/vesting/types"
 )
 
-// CheckIfAccountIsSuitableForDestroying checking the account is suitable for destroy (EVM) or not.
+// CheckIfAccountIsSuitableForDestroying checking the account is suitable for destroy (EVM) or not,
+// using the wall-clock time as the current time.
+//
+// WARNING: must not be used in consensus code, use CheckIfAccountIsSuitableForDestroyingAt
+// with the block time instead.
+func CheckIfAccountIsSuitableForDestroying(account sdk.AccountI) (destroyable bool, reason string) {
+	return CheckIfAccountIsSuitableForDestroyingAt(account, time.Now())
+}
+
+// CheckIfAccountIsSuitableForDestroyingAt checking the account is suitable for destroy (EVM) or not,
+// as of the given time (the block time, for consensus code).
 //
 // It returns false and the reason if the account:
 //  1. Is a module account.
 //  2. Is a vesting account which still not expired.
-func CheckIfAccountIsSuitableForDestroying(account sdk.AccountI) (destroyable bool, reason string) {
+func CheckIfAccountIsSuitableForDestroyingAt(account sdk.AccountI, now time.Time) (destroyable bool, reason string) {
 	if account == nil || reflect.ValueOf(account).IsNil() {
 		panic("account is nil")
 	}
@@ -25,14 +35,14 @@ func CheckIfAccountIsSuitableForDestroying(account sdk.AccountI) (destroyable bo
 	}
 
 	if vestingAcc, ok := account.(*vestingtypes.BaseVestingAccount); ok {
-		if vestingAcc.GetEndTime() > time.Now().UTC().Unix() {
+		if vestingAcc.GetEndTime() > now.UTC().Unix() {
 			reason = "unexpired vesting account is not suitable for destroying"
 			return
 		}
 	}
 
 	if vestingAcc, ok := account.(vesting.VestingAccount); ok {
-		if vestingAcc.GetEndTime() > time.Now().UTC().Unix() {
+		if vestingAcc.GetEndTime() > now.UTC().Unix() {
 			reason = "unexpired vesting account is not suitable for destroying"
 			return
 		}
